@@ -75,6 +75,10 @@ def cex_request(req, impl, seed=1, tries=3000):
     if op == "rewrite":
         mode = "ht" if r[1] in INTUITIONISTIC_REWRITES else "classic"
         return sx.dump(["cex_equiv", mode, r[2], a, str(seed), str(tries)])
+    if op == "tptp_formula":
+        if not isinstance(a, tuple):
+            return None
+        return sx.dump(["cex_tptp", r[1], a, str(seed), str(tries)])
     if op == "simplify":
         if not (isinstance(a, list) and len(a) == 2 and a[0] in ("ok", "timeout")):
             return None
@@ -91,6 +95,20 @@ def search_generic(mismatches, outdir):
     (smallest inputs first, bounded number of tries, wall-clock budget)."""
     cands = [m for m in mismatches if "request" in m]
     cands.sort(key=lambda m: len(m["request"]))
+    if cands and cands[0]["request"].startswith("(tptp_formula"):
+        # phase 1 (cheap): which of the implementation's texts read back as a different tree / do not read at all?
+        pre, pidx = [], []
+        for m in cands[:2000]:
+            q = cex_request(m["request"], m["impl"], tries=0)
+            if q:
+                pre.append(q)
+                pidx.append(m)
+        kept = []
+        if pre:
+            for m, a in zip(pidx, ask_driver(pre, timeout=SEARCH_BUDGET_S)):
+                if not a.startswith("(same-tree"):
+                    kept.append(m)
+        cands = kept
     reqs, idx = [], []
     for m in cands[:40]:
         q = cex_request(m["request"], m["impl"], tries=400)
@@ -101,11 +119,49 @@ def search_generic(mismatches, outdir):
         return None
     answers = ask_driver(reqs, timeout=SEARCH_BUDGET_S)
     for m, a in zip(idx, answers):
+        if a.startswith("(unparsable"):
+            # the implementation's TFF text is outside the fragment the model's reader accepts: ask tptp4X
+            bad = tptp4x_formula(m["impl"], outdir)
+            if bad:
+                return {"input_request": m["request"], "implementation_output": m["impl"], "model_output": m["model"],
+                        "origin": m.get("origin"), "tptp4X": bad,
+                        "note": "failing input: the implementation's rendering of this formula is not a TPTP formula (rejected by tptp4X, "
+                                "wrapped as one closed tff axiom); the model's rendering of the same formula is accepted"}
+    for m, a in zip(idx, answers):
         if a.startswith("(found"):
             return {"input_request": m["request"], "implementation_output": m["impl"], "model_output": m["model"],
                     "origin": m.get("origin"), "bounded_countermodel": a,
                     "note": "candidate failing input: the implementation's output evaluated against the reference semantics over a finite window "
                             "(confirmed on a second, wider window); bounded evaluation is a test, not a proof"}
+    return None
+
+
+TPTP_VAR = re.compile(r"(?<![A-Za-z0-9_$])_*[A-Z][A-Za-z0-9_]*_([gis])(?![A-Za-z0-9_])")
+
+
+def tptp4x_formula(impl_line, outdir):
+    """tptp4X verdict on one rendered formula, wrapped as a closed axiom; returns the error lines or None if accepted."""
+    import tempfile
+    try:
+        v = sx.parse(impl_line)
+    except Exception:
+        return None
+    if not isinstance(v, tuple):
+        return None
+    text = v[1]
+    sorts = {"g": "general", "i": "$int", "s": "symbol"}
+    vs = []
+    for mo in TPTP_VAR.finditer(text):
+        d = f"{mo.group(0)}: {sorts[mo.group(1)]}"
+        if d not in vs:
+            vs.append(d)
+    closed = f"![{', '.join(vs)}]: ({text})" if vs else text
+    with tempfile.TemporaryDirectory(dir=str(outdir)) as tmp:
+        f = Path(tmp) / "f.p"
+        f.write_text(f"tff(f, axiom, {closed}).\n")
+        pr = subprocess.run([TPTP4X, "-q2", str(f)], stdout=subprocess.PIPE, stderr=subprocess.STDOUT, text=True, timeout=60)
+        if pr.returncode != 0 and not UNDERSCORE_ID.search(text):
+            return [l for l in pr.stdout.splitlines() if "ERROR" in l][:3] or [pr.stdout[-300:]]
     return None
 
 
@@ -459,13 +515,19 @@ PROPS = {
         "suites": [("tptp", 3000, 80000), ("strong_text", 200, 4000)],
         "extra": tptp_validate("C06", "strong_text"),
         "rule": "seeded formulas (chains of 1-3 guards under every connective, mixed-sort comparisons, negative and extreme numerals, function constants of all sorts) "
-                "rendered by tptp::Format vs Lean `tptpFormula` (text equality, isize::MIN panic included); whole problem texts of strong-equivalence tasks; every emitted text parsed by tptp4X",
-        "level_text": "Partial: grouping theorems about the printer after the fix 9b44a2c (chains parenthesised under negation and connectives, relation symbol by operand sorts, $uminus); "
-                      "the structural translation with its semantics (tr_sem) is not yet formalised; meaning preservation rests on the text correspondence + tptp4X acceptance of every emitted text.",
-        "level_note": PROOF_NOTE + " tptp4X (bundled with the repo's tests) is used as a syntax oracle only.",
-        "technique": "Lean 4 proof (printer grouping lemmas) + differential correspondence (text) + tptp4X syntax oracle",
-        "design_ref": "DESIGN.md 6/C06",
-        "trusted_base": COMMON_TRUST + ["tptp4X as syntax oracle"],
+                "rendered by tptp::Format vs Lean `tptpFormula` (text equality); on the model side every text is read back with the TFF reader (TPTP precedence rules) "
+                "and must equal the TFF tree `tr F`; whole problem texts of strong-equivalence tasks; every emitted problem text parsed by tptp4X. After a disagreement: "
+                "the implementation's text is read back and compared semantically with the source formula over bounded interpretations, unreadable texts go to tptp4X",
+        "level_text": "Full for the model, one reading step by exploration: rendering_is_a_tree (the emitted text is TForm.print (tr F)), rendering_preserves_meaning "
+                      "(tr_sem: in the standard structure of any interpretation the TFF tree holds under the typed reading of an assignment iff F holds classically - all formulas, "
+                      "chains, mixed sorts, negative numerals, placeholders, binder lists), entailment_transfers(_with_preamble): an entailment between renderings valid in all TFF "
+                      "structures satisfying the preamble and symbol-order axioms transfers to the source formulas in all standard interpretations (uses C12.std_satisfies_preamble). "
+                      "Not proved: that a TPTP reader reads TForm.print t back as t (TPTP grammar not formalised) - checked on every run by the read-back comparison and tptp4X. "
+                      "The statements hold for the printer after the repair fix: 9b44a2c.",
+        "level_note": PROOF_NOTE + " tptp4X (bundled with the repo's tests) is used as a syntax oracle only; the TFF reader (Model/TffParse.lean) is unverified and used for the read-back check and the search.",
+        "technique": "Lean 4 proof (TFF tree, its semantics in arbitrary structures, tr_sem, entailment transfer) + differential correspondence (text) + read-back comparison + tptp4X syntax oracle",
+        "design_ref": "DESIGN.md 0.3, 6/C06",
+        "trusted_base": COMMON_TRUST + ["tptp4X as syntax oracle", "the reading of TForm.print output as the tree (TPTP grammar), checked by read-back, not proved"],
         "assumptions": COMMON_ASSUME,
     },
     "C09": {
@@ -484,7 +546,7 @@ PROPS = {
     "C12": {
         "suites": [("strong_text", 300, 6000)],
         "rule": "whole problem texts of seeded strong-equivalence tasks: preamble (tied to the Lean transcription), symbol_order axioms, transition axioms vs the model, text equality",
-        "level_text": "Full for the model: each of the 15 preamble axioms is a theorem about the standard structure; symbol_chain_true / symbol_chain_covers / chain_distinct "
+        "level_text": "Full for the model: each of the 15 preamble axioms is a theorem about the standard structure, collected as std_satisfies_preamble : Preamble (stdStruct I) over the same TFF structure type that C06 interprets renderings in; symbol_chain_true / symbol_chain_covers / chain_distinct "
                       "(ordering axioms form a strictly increasing chain over exactly the problem's symbols); transition_true (h-implies-t axioms hold in every interpretation arising from H subset T).",
         "level_note": PROOF_NOTE + " The reading of the preamble's TFF syntax into Lean propositions is by hand (15 one-line axioms).",
         "technique": "Lean 4 proof (order lemmas on the standard domain, insertion-sort sortedness, binder characterisation) + text correspondence of the preamble and generated axioms",
